@@ -57,6 +57,8 @@ pub struct Ctx {
     /// harness-owned probes (lookup keys) alive during the window
     pub extras: Vec<Owned>,
     /// other harness-owned containers kept alive until the step has been judged
+    /// tag of the object `V::default()` makes during the call (traces use one beyond every slot tag)
+    pub fresh_tag: i64,
     pub stash: Vec<Box<dyn std::any::Any>>,
     pub stash_serials: Vec<u32>,
     pub allocs: u64,
@@ -76,6 +78,7 @@ impl Ctx {
             set_mode,
             held: vec![],
             extras: vec![],
+            fresh_tag: FRESH,
             stash: vec![],
             stash_serials: vec![],
             allocs: 0,
